@@ -5,7 +5,7 @@ from . import enc, gen
 from . import stubs  # noqa
 
 AWKWARD = ['(', ')', '[', ']', '{', '}', '<', '>', '&', '"', "'", '/', '|', ',', '.', ':', ';', '-', '_', '%', 'a>b', '<x>', 'a/b', 'x&y',
-           "can't", '"q"', 'C++', '100%', '-LRB-', 'a_b', '日本', '語', 'é', '\U0001F600', 'café', 'A|B', 'x:y', '&amp;', 'a.b', '--', 'x)[conj]', 'y][conj]', 'f(x)', 'T>', '<L', 'a\\b', 'wow!', '!', '9am', 'U.S.', '_(', '_.x', '_-', '):', ')a', '(b', '))x']
+           "can't", '"q"', 'C++', '100%', '-LRB-', 'a_b', '日本', '語', 'é', '\U0001F600', 'café', 'A|B', 'x:y', '&amp;', 'a.b', '--', 'x)[conj]', 'y][conj]', 'f(x)', 'T>', '<L', 'a\\b', 'wow!', '!', '9am', 'U.S.', '_(', '_.x', '_-', '):', ')a', '(b', '))x', '()', '[]', '{}', '){', '}[', '(){}']
 PLAIN = ['John', 'loves', 'Mary', 'the', 'dog', 'runs', 'and', 'cat', 'quickly', 'of', 'Tokyo', 'saw']
 
 
@@ -271,3 +271,37 @@ def real_batch(batch, rng=None):
             lst.append(ScoredTree(tree=build_real(t, shared), score=sc))
         out.append(lst)
     return out
+
+
+# ------------------------------------------------------------------ the same children under different rules
+TWIN_PAIRS = {'en': [(',', 'NP'), ('LRB', 'NP'), (',', 'S[ng]\\NP'), ('conj', 'NP'), (',', 'S[dcl]\\NP'), (';', 'S[dcl]'), ('conj', 'S[dcl]'), (',', ','),
+                     (':', ':'), ('LRB', 'S[dcl]'), (',', 'N'), ('conj', 'N/N')],
+              'ja': [('S[mod=nm,form=base,fin=f]', 'S[mod=nm,form=base,fin=f]\\S[mod=nm,form=base,fin=f]'),
+                     ('S[mod=nm,form=base,fin=f]/S[mod=nm,form=base,fin=f]', 'S[mod=nm,form=base,fin=f]')]}
+
+
+def twin_batch(rng, lang):
+    """a batch whose sentences are two-word derivations over ONE pair of child categories, one sentence per result the real
+    rule function returns for that pair (different parent categories / labels over the same children), in random order;
+    None when no pair of this language has several results"""
+    from depccg.cat import Category
+    fb, _ = _grammar(lang)
+    tokfn = en_token if lang == 'en' else ja_token
+    cands = []
+    for a, b in TWIN_PAIRS[lang]:
+        x, y = Category.parse(a), Category.parse(b)
+        rs = fb(x, y)
+        if len({(str(r.cat), r.op_string) for r in rs}) >= 2:
+            cands.append((x, y, rs))
+    if not cands:
+        return None
+    x, y, rs = rng.choice(cands)
+    rs = list(rs)
+    rng.shuffle(rs)
+    batch = []
+    for r in rs + rs[:1]:
+        w = words_for(rng, 2, 0.2, exclude='/{}()<>\\')
+        t = binary(enc.enc_cat(r.cat), leaf(enc.enc_cat(x), tokfn(rng, w[0])), leaf(enc.enc_cat(y), tokfn(rng, w[1])), r.op_string, r.op_symbol, r.head_is_left)
+        t['licensed'] = True
+        batch.append([t])
+    return batch
